@@ -105,6 +105,7 @@ def fmtReg (s : Store) : Option Nat → String
       | some S => "O " ++ fmtOPB ⟨S.numvar, S.constraints⟩ ++ " H " ++ fmtHeader S.header
       | none => "O ?"
     | some (.ints xs) => "I " ++ fmtIntList xs
+    | some (.refs []) => "I 0"          -- an empty Python list has no element type
     | some (.refs as) =>
       "L " ++ toString as.length ++ as.foldl (fun acc x =>
         acc ++ " [" ++ (match readInts s x with | some xs => fmtIntList xs | none => "?") ++ "]") ""
